@@ -1494,7 +1494,7 @@ theorem attrs_validate_textOk (hrp : String) (orb : Bytes) (a : Attrs) (h : a.va
     simp only [Attrs.validate] at h
     repeat' split at h
     all_goals first | cases h | skip
-    rename_i g1 g2 g3 g4 hmeta g6 hden
+    rename_i g1 g2 g3 g4 hmeta ggas g6 hden
     have h1 : strOk hm = true := by
       apply hookMeta_strOk
       cases hq : (hm != "" && !(hm.startsWith Gen.hypHookMetadataPrefix && isHexString (hm.drop Gen.hypHookMetadataPrefix.length).toString)) with
